@@ -73,6 +73,29 @@ def make_signer(kind, key_idx, for_interest):
     raise HarnessError(f'signer {kind}')
 
 
+
+def _fit_body_len(build, body_len, fit, kind, key, for_interest):
+    """Aim the packet at a Length boundary: the body length (content / parameters) for which the packet's outer Length,
+    computed with the signer's RESERVED signature size, is `fit` - so that a signature shorter than reserved makes the
+    encoder cut the packet back across the boundary. build(n, signer) -> wire."""
+    probe = make_signer(kind, key, for_interest)
+    w = build(body_len, probe)
+    try:
+        wb = bytes(w)
+        _typ, vs, e = tlvref.single(wb)
+        last = tlvref.elements(wb, vs, e)[-1]
+        sig_len = last[3] - last[2]
+        outer_len = e - vs
+    except Exception:
+        return body_len
+    reserved = outer_len + probe.get_signature_value_size() - sig_len
+    n = body_len + fit - reserved
+    if n < 0:
+        return body_len
+    if (n >= 253) != (body_len >= 253):
+        n -= 2                      # the body's own Length grows to three bytes
+    return max(n, 0)
+
 def make_checker(kind, key_idx, name_idx=None):
     """The library's matching verifier, legacy calling convention: async (name, sig_ptrs) -> bool
     (name_idx: the key NAME the verifier is built for, when it differs from the key material - a key that was replaced
@@ -490,6 +513,10 @@ class SigWorld(World):
                               final_block_id=None if src.get('final') is None else bytes(tlvref.name_from_uri('/' + src['final'])[0]))
             if src.get('no_meta'):
                 mi = None
+            if src.get('fit') and signer is not None and not src.get('no_content'):
+                n_fit = _fit_body_len(lambda n, sg: enc.make_data(name, mi, bytes(n), signer=sg), len(content), src['fit'],
+                                      flow['signer'], flow['key'], False)
+                content = bytes((i * 3 + cfid) & 0xff for i in range(n_fit))
             dwire = bytes(enc.make_data(name, mi, content if not src.get('no_content') else None, signer=signer))
             flow['_made'] = dwire
 
@@ -551,6 +578,10 @@ class SigWorld(World):
                 ip = enc.InterestParam(lifetime=flow.get('lifetime', 20), nonce=900 + fid,
                                        can_be_prefix=flow.get('cbp', False), must_be_fresh=flow.get('mbf', False),
                                        hop_limit=flow.get('hop'))
+                if flow.get('fit') and signer is not None:
+                    n_fit = _fit_body_len(lambda n, sg: enc.make_interest(name, ip, bytes(n), signer=sg), len(app_param),
+                                          flow['fit'], flow['signer'], flow['key'], True)
+                    app_param = bytes((i * 5 + fid) & 0xff for i in range(n_fit))
                 iwire, final_name = enc.make_interest(name, ip, app_param, signer=signer, need_final_name=True)
                 iwire = bytes(iwire)
                 flow['_made'] = iwire
@@ -881,6 +912,13 @@ def generate(rng, seed, tier='quick'):
                 f['hop'] = rng.randint(0, 255)
         if rng.random() < 0.1:
             f['dup'] = True
+        if signer == 'ecdsa' and rng.random() < 0.15:
+            # aimed at a Length boundary: the outer Length computed with the reserved signature size lies just above it,
+            # the real (shorter) signature brings it back below
+            f['fit'] = rng.choice([253, 253, 254, 254, 255, 256, 65536, 65537])
+            f['content_len'] = rng.randint(0, 30)
+            if d == 'interest':
+                f['app_param_len'] = rng.randint(0, 30)
         if d == 'interest' and rng.random() < 0.15:
             f['placeholder_at'] = rng.randint(0, 3)
         flows.append(f)
